@@ -231,7 +231,10 @@ func (d *db) installSnapshot(shardID uint64,
 
 func (d *db) removeAllLocked(shardID uint64, replicaID uint64, newLog bool) error {
 	if newLog {
-		if err := d.createNewLog(); err != nil {
+		// like any other switch to a new log file, the index of the current one
+		// has to be saved first: a log file that is not the last one and has no
+		// index makes the db impossible to open after a crash
+		if err := d.switchToNewLog(); err != nil {
 			return err
 		}
 	}
